@@ -13,6 +13,7 @@ HARNESS = {
     'pumplab': dict(srcs=['harness/pipelab/pumplab.c', 'harness/common/mockloop.c'] + COMMON),
     'pipelab': dict(srcs=['harness/pipelab/pipelab.c', 'harness/pipelab/lab.c', 'harness/common/mockloop.c', 'harness/common/cumem.c'] + COMMON),
     'xthread': dict(srcs=['harness/sched/xthread.c', 'harness/sched/sched.c', 'harness/common/mockloop.c'] + COMMON),
+    'xworker': dict(srcs=['harness/sched/xworker.c', 'harness/sched/sched.c', 'harness/common/mockloop.c'] + COMMON),
     'picsound': dict(srcs=['harness/corelab/picsound.c', 'harness/common/cumem.c'] + COMMON),
 }
 
@@ -559,5 +560,13 @@ PROPS['C06'] = dict(
              require=['c06.deliveries_checked']),
         dict(name='queue-free-tsan-multi', bin='xthread', variant='tsan', mode='free',
              quick=48, thorough=1600, timeout=3000),
+        dict(name='worker-serial', bin='xworker', variant='plain', mode='serial',
+             quick=30000, thorough=1500000,
+             require=['c06.remote_entries_checked', 'c06.worker_deliveries_checked']),
+        dict(name='worker-serial-asan', bin='xworker', variant='asan', mode='serial',
+             quick=12000, thorough=400000),
+        dict(name='worker-free-tsan', bin='xworker', variant='tsan', mode='free',
+             quick=400, thorough=12000, timeout=3000,
+             require=['c06.worker_deliveries_checked']),
     ],
 )
